@@ -383,6 +383,10 @@ def run(ctx):
             if o[0] != "ok" or not ok:
                 ctx.corr_mismatch("collapse-loop", {"state": c["state"], "e": e, "gamma": g2}, "impl events %r model %r" % (iev, mev))
 
+    # whole A-FSSH runs against the composed step of the model (MudModel/AStep.lean): every step's position, velocity, rho, label,
+    # both moment tensors, the generators handed to eigh in advance_delR / advance_delP / propagate_electronics, hop and collapse events
+    from .. import runcommon as rc
+    rc.run_afssh_correspondence(ctx, ctx.budget(9, 200))
     for i in range(ctx.budget(6, 80)):
         a = {"model": ["simple", "dual", "extended"][i % 3], "integ": ["exp", "linear-rk4"][(i // 3) % 2], "x0": -4.0,
              "k": float(rng.uniform(8, 25)), "dt": 20.0, "steps": 400, "seed": int(rng.integers(1, 2 ** 31))}
